@@ -183,6 +183,37 @@ theorem corner_offset_z (x1 y1 x2 y2 : Rat) (off : Option Length) :
            [(x1, y1), (mx, y1), (mx, y2), (x2, y2)]) := by
   simp [cornerPoints]
 
+/-- **the bend of a Z shape lies between the two ends and the last segment enters from outside**: with an
+    absolute corner-offset of magnitude at most the distance travelled - measured from the start when
+    positive, back from the end when negative - or a ratio in [0, 1], the bend `mx` is between `x1` and
+    `x2`, whichever way the connector travels (`x1 ≤ x2` or `x2 < x1`); in particular a connector that
+    runs right-to-left with "this far before the end" does not overshoot into the end box -/
+theorem corner_bend_between_ends (x1 x2 : Rat) (off : Length)
+    (hoff : match off with
+      | .Absolute a => (if a < 0 then -a else a) ≤ (if x2 < x1 then x1 - x2 else x2 - x1)
+      | .Ratio r => 0 ≤ r ∧ r ≤ 1) :
+    let mx := off.calc_offset x1 x2
+    (x1 ≤ x2 → x1 ≤ mx ∧ mx ≤ x2) ∧ (x2 < x1 → x2 ≤ mx ∧ mx ≤ x1) := by
+  cases off with
+  | Absolute a =>
+    by_cases hx : x2 < x1 <;> by_cases ha : a < 0
+    · have hb : -a ≤ x1 - x2 := by simpa [hx, ha] using hoff
+      simp only [Length.calc_offset, hx, ha, decide_true, if_true]
+      exact ⟨fun h => absurd hx (not_lt.mpr h), fun _ => ⟨by linarith, by linarith⟩⟩
+    · have hb : a ≤ x1 - x2 := by simpa [hx, ha] using hoff
+      simp only [Length.calc_offset, hx, ha, decide_true, decide_false, if_true, if_false, Bool.false_eq_true]
+      exact ⟨fun h => absurd hx (not_lt.mpr h), fun _ => ⟨by linarith [not_lt.mp ha], by linarith [not_lt.mp ha]⟩⟩
+    · have hb : -a ≤ x2 - x1 := by simpa [hx, ha] using hoff
+      simp only [Length.calc_offset, hx, ha, decide_true, decide_false, if_true, if_false, Bool.false_eq_true]
+      exact ⟨fun _ => ⟨by linarith, by linarith⟩, fun h => h.elim⟩
+    · have hb : a ≤ x2 - x1 := by simpa [hx, ha] using hoff
+      simp only [Length.calc_offset, hx, ha, decide_false, if_false, Bool.false_eq_true]
+      exact ⟨fun _ => ⟨by linarith [not_lt.mp ha], by linarith [not_lt.mp ha]⟩, fun h => h.elim⟩
+  | Ratio r =>
+    obtain ⟨h0, h1⟩ := hoff
+    simp only [Length.calc_offset]
+    constructor <;> intro h <;> constructor <;> nlinarith
+
 /-- U shapes need an absolute offset; a percent offset is an error, not a guess -/
 theorem corner_u_needs_absolute (s e : Rat × Rat) (d : Dir) (r : Rat) :
     cornerPoints s e (some d) (some d) (some (Length.Ratio r)) = .error .invalidData := by
@@ -204,4 +235,5 @@ end Svgdx.Props.C13
 #print axioms Svgdx.Props.C13.corner_rectilinear
 #print axioms Svgdx.Props.C13.corner_without_dir
 #print axioms Svgdx.Props.C13.corner_offset_z
+#print axioms Svgdx.Props.C13.corner_bend_between_ends
 #print axioms Svgdx.Props.C13.corner_u_needs_absolute
